@@ -990,14 +990,12 @@ def _simplify_function_call(call: HplFunctionCall) -> HplExpression:
         # FIXME compound single argument signature
         if len(call.arguments) < 2:
             return call
-        arg1: HplExpression = _simplify(call.arguments[0])
-        arg2: HplExpression = _simplify(call.arguments[1])
-        if is_number_literal(arg1) and is_number_literal(arg2):
-            assert isinstance(arg1, HplLiteral)
-            assert isinstance(arg2, HplLiteral)
+        # gcd is variadic; every argument takes part in the result
+        args: List[HplExpression] = [_simplify(arg) for arg in call.arguments]
+        if all(is_number_literal(arg) for arg in args):
             # math.gcd only takes int objects; 0.0 and 2.0 are integers too
-            if arg1.value == int(arg1.value) and arg2.value == int(arg2.value):
-                return HplLiteral.number(math.gcd(int(arg1.value), int(arg2.value)))
+            if all(arg.value == int(arg.value) for arg in args):
+                return HplLiteral.number(math.gcd(*(int(arg.value) for arg in args)))
 
     return call
 
